@@ -1,0 +1,46 @@
+//go:build verif
+// +build verif
+
+package ledgerstore
+
+import (
+	"github.com/polynetwork/poly/common"
+)
+
+// VerifCrashHook, when installed by a verification harness, is told the name of every crash point reached.
+var VerifCrashHook func(point string)
+
+func verifCrashPoint(point string) {
+	if VerifCrashHook != nil {
+		VerifCrashHook(point)
+	}
+}
+
+// VerifStateHeight exposes the height recorded in the state store.
+func (this *LedgerStoreImp) VerifStateHeight() (uint32, error) {
+	_, h, err := this.stateStore.GetCurrentBlock()
+	return h, err
+}
+
+// VerifBlockTreeSize exposes the size of the block-hash accumulator.
+func (this *LedgerStoreImp) VerifBlockTreeSize() uint32 { return this.stateStore.merkleTree.TreeSize() }
+
+// VerifBlockTreeRoot exposes the root of the block-hash accumulator.
+func (this *LedgerStoreImp) VerifBlockTreeRoot() common.Uint256 {
+	return this.stateStore.merkleTree.Root()
+}
+
+// VerifPeerInfo exposes the validator sets in force for headers and for blocks (vbft mode).
+func (this *LedgerStoreImp) VerifPeerInfo() (header map[string]uint32, block map[string]uint32) {
+	this.lock.RLock()
+	defer this.lock.RUnlock()
+	header = make(map[string]uint32)
+	block = make(map[string]uint32)
+	for k, v := range this.vbftPeerInfoheader {
+		header[k] = v
+	}
+	for k, v := range this.vbftPeerInfoblock {
+		block[k] = v
+	}
+	return
+}
